@@ -45,7 +45,7 @@ WMoveC(y, s) == LWMoveC(y, s) /\ Commit([St EXCEPT !.w[y] = wd[s], !.w[s] = -1])
 WAssignTag(y, x) == LWAssignTag(y, x) /\ Commit(Attach(ResetOf(St, y), y, td[x])) /\ UNCHANGED td
 WCopyA(y, s) == /\ LWCopyA(y, s) /\ UNCHANGED td
                 /\ IF y = s THEN Commit(St) ELSE LET a == ResetOf(St, y) IN Commit(Attach(a, y, a.w[s]))
-WMoveA(y, s) == /\ LWMoveA(y, s) /\ UNCHANGED td
+WMoveA(y, s) == /\ LWMoveAReset(y, s) /\ UNCHANGED td
                 /\ IF y = s THEN Commit(St) ELSE LET a == ResetOf(St, y) IN Commit([a EXCEPT !.w[y] = a.w[s], !.w[s] = -1])
 WSwap(y, s) == LWSwap(y, s) /\ Commit([St EXCEPT !.w[y] = wd[s], !.w[s] = wd[y]]) /\ UNCHANGED td
 WReset(y) == LWReset(y) /\ Commit(ResetOf(St, y)) /\ UNCHANGED td
@@ -71,7 +71,8 @@ Spec == Init /\ [][Next]_vars
 
 \* ---- properties --------------------------------------------------------------------------------------------
 ImplAlive(y) == wd[y] >= 1 /\ recs[wd[y]].alive
-WatchersAgree == \A y \in WS : /\ (wat[y] = WAbsent) = (wd[y] = -2) /\ (wat[y] = WEmpty) = (wd[y] = -1)
+WatchersAgree == \A y \in WS : /\ (wat[y] = WAbsent) = (wd[y] = -2)
+                               /\ (wat[y] = WEmpty) = (wd[y] = -1 \/ (wd[y] >= 1 /\ ~recs[wd[y]].alive))
                                /\ ImplAlive(y) = Alive(y)
 NoDangling == /\ ~uaf
               /\ \A y \in WS : wd[y] >= 1 => ~recs[wd[y]].freed
